@@ -317,6 +317,39 @@ theorem aipw_diff_def (d : List (Option F)) :
     0 ≤ (aipwDiff d).2 :=
   ⟨rfl, rfl, ic_se_nonneg _ _⟩
 
+/-! ### 6b. Known findings F15 / F16: two code paths whose log-RR influence values are not the documented ones
+
+FULL STATEMENTS (fail): `∀ m1 m0 r1 r0 q1 q0, icLogRRAipw … = icLogRRDoc …` (F16, `aipw_calculator`) and
+`∀ …, icLogRRXfit … = icLogRRDoc …` (F15, `crossfit.tmle_calculator`).  The model mirrors the code that exists; the
+`_partial` theorems give the exact gap (zero iff the prediction terms vanish or the means are 1 / -1), the
+`_full_refuted` theorems are concrete witnesses. -/
+
+theorem aipw_rr_ic_partial (m1 m0 r1 r0 q1 q0 : F) (h1 : m1 ≠ 0) (h0 : m0 ≠ 0) :
+    icLogRRAipw m1 m0 r1 r0 q1 q0 - icLogRRDoc m1 m0 r1 r0 q1 q0
+      = (q1 - m1) * (1 - 1 / m1) + (q0 - m0) * (1 + 1 / m0) := by
+  unfold icLogRRAipw icLogRRDoc
+  field_simp
+  ring
+
+theorem xfit_rr_ic_partial (m1 m0 r1 r0 q1 q0 : F) (h1 : m1 ≠ 0) (h0 : m0 ≠ 0) :
+    icLogRRXfit m1 m0 r1 r0 q1 q0 - icLogRRDoc m1 m0 r1 r0 q1 q0
+      = (q1 - m1) * (1 - 1 / m1) - (q0 - m0) * (1 - 1 / m0) := by
+  unfold icLogRRXfit icLogRRDoc
+  field_simp
+  ring
+
+theorem aipw_rr_ic_full_refuted :
+    ∃ m1 m0 r1 r0 q1 q0 : F, m1 ≠ 0 ∧ m0 ≠ 0 ∧ icLogRRAipw m1 m0 r1 r0 q1 q0 ≠ icLogRRDoc m1 m0 r1 r0 q1 q0 := by
+  refine ⟨1 / 2, 1 / 4, 0, 0, 3 / 4, 1 / 2, by norm_num, by norm_num, ?_⟩
+  unfold icLogRRAipw icLogRRDoc
+  norm_num
+
+theorem xfit_rr_ic_full_refuted :
+    ∃ m1 m0 r1 r0 q1 q0 : F, m1 ≠ 0 ∧ m0 ≠ 0 ∧ icLogRRXfit m1 m0 r1 r0 q1 q0 ≠ icLogRRDoc m1 m0 r1 r0 q1 q0 := by
+  refine ⟨1 / 2, 1 / 4, 0, 0, 3 / 4, 1 / 4, by norm_num, by norm_num, ?_⟩
+  unfold icLogRRXfit icLogRRDoc
+  norm_num
+
 /-! ### 7. TMLE's quantile (finding F12) -/
 
 /-- FULL STATEMENT (fails, F12): `∀ ppf α, tmleZ ppf α = zOf ppf α`.
